@@ -1355,3 +1355,51 @@ def _data_slice(self, o, limit=400):
 
 
 Body.data_slice = _data_slice
+
+
+def _reachable_constprop(self, starts, limit=200000):
+    """blocks reachable from `starts` when boolean/integer locals that were just assigned a constant on the path
+    (`matches!`, `a && b`, `let ok = if .. {true} else {false}`) steer the switches that test them."""
+    seen = set()
+    out = set()
+    stack = [(b, frozenset()) for b in starts]
+    n = 0
+    while stack and n < limit:
+        blk, env = stack.pop()
+        if (blk, env) in seen:
+            continue
+        seen.add((blk, env))
+        out.add(blk)
+        n += 1
+        d = dict(env)
+        for st in self.blocks[blk]["st"]:
+            if st["k"] != "assign" or st["p"]["pr"]:
+                continue
+            l = st["p"]["l"]
+            rv = st["r"]
+            if rv["k"] == "use" and rv["o"]["c"] == "const" and "int" in rv["o"]:
+                d[l] = rv["o"]["int"]
+            elif rv["k"] == "use" and rv["o"]["c"] in ("copy", "move") and not rv["o"]["p"]["pr"] and rv["o"]["p"]["l"] in d:
+                d[l] = d[rv["o"]["p"]["l"]]
+            else:
+                d.pop(l, None)
+        t = self.blocks[blk]["t"]
+        if t["k"] == "call" and not t["dest"]["pr"]:
+            d.pop(t["dest"]["l"], None)
+        env2 = frozenset(d.items())
+        if t["k"] == "switch" and t["d"]["c"] in ("copy", "move") and not t["d"]["p"]["pr"] and t["d"]["p"]["l"] in d:
+            v = d[t["d"]["p"]["l"]]
+            tgt = None
+            for val, tb in t["targets"]:
+                if val == v:
+                    tgt = tb
+            if tgt is None:
+                tgt = t["otherwise"]
+            stack.append((tgt, env2))
+            continue
+        for tb, lab in self.edges(blk):
+            stack.append((tb, env2))
+    return out
+
+
+Body.reachable_constprop = _reachable_constprop
